@@ -83,6 +83,11 @@ theorem C20_tie_recreate_branch :
     CM.Gen.C20.dneDeleteUsesClientDirectory = true ∧ CM.Gen.C20.dneReconstructs = true ∧
     CM.Gen.C20.dneRefreshesOrderAccount = true := by decide
 
+/-- the e-mail discovery of `PreCheck` only LOADS the most recent account: it never makes one
+up (a made-up account for the folder name `default` has the contact `mailto:default`, hence
+another lock name over the same two files) -/
+theorem C20_tie_email_discovery_only_loads : CM.Gen.C20.emailDiscoveryCalls = ["loadAccount"] := by decide
+
 /-- the rule: reject iff scheme ≠ "https" ∧ ¬ SubjectIsInternal(host), after "https://" was
 put in front of a string without "://" -/
 theorem C20_tie_https_rule :
